@@ -47,29 +47,29 @@ const (
 type Op int
 
 const (
-	OpEpollAdd         Op = iota // epoll_ctl(ADD, role, mask)            -> ok | EEXIST | ENOENT | EBADF
-	OpEpollMod                   // epoll_ctl(MOD, role, mask)            -> ok | ...
-	OpEpollDel                   // epoll_ctl(DEL, role)                  -> ok | ...
-	OpWait                       // epoll_wait                            -> set of role:bits, "-" if empty
-	OpWrite                      // write(role, N bytes)                  -> n>0 | EAGAIN | EPIPE/ECONNRESET | errno
-	OpFill                       // write(role) in a loop until EAGAIN    -> n>0..EAGAIN | EAGAIN | errno
-	OpRead                       // read(role, buffer of N bytes)         -> exact count | errno
-	OpClose                      // close(role)                           -> ok | errno
-	OpSoError                    // getsockopt(role, SO_ERROR)            -> 0 | errno name
-	OpPeerWrite                  // the peer sends N bytes (all must be queued)
-	OpPeerDrainAll               // the peer reads until it has everything A ever wrote
-	OpPeerCloseWrite             // the peer sends FIN (shutdown(SHUT_WR))
-	OpPeerClose                  // the peer closes (FIN; RST when it has unread data)
-	OpPeerReset                  // the peer aborts (SO_LINGER 0 + close); TCP only
-	OpEventfdCreate              // eventfd2(0, EFD_NONBLOCK)
-	OpEventfdWrite               // write(E, 8-byte counter increment N)
-	OpEventfdRead                // read(E, 8 bytes)                      -> 8 | EAGAIN
-	OpUDPCreate                  // a bound, non-blocking UDP socket U and two remote senders
-	OpUDPSend                    // remote sender number From sends one datagram of N bytes to U
-	OpRecvfrom                   // recvfrom(U, buffer of N bytes)        -> "n from=S<k>" | EAGAIN
-	OpConnectRefused             // C: non-blocking connect to a port without listener -> EINPROGRESS (then refused)
-	OpConnectPending             // C: non-blocking connect that stays in SYN_SENT     -> EINPROGRESS
-	OpConnectAccepted            // C: non-blocking connect that then completes        -> EINPROGRESS
+	OpEpollAdd        Op = iota // epoll_ctl(ADD, role, mask)            -> ok | EEXIST | ENOENT | EBADF
+	OpEpollMod                  // epoll_ctl(MOD, role, mask)            -> ok | ...
+	OpEpollDel                  // epoll_ctl(DEL, role)                  -> ok | ...
+	OpWait                      // epoll_wait                            -> set of role:bits, "-" if empty
+	OpWrite                     // write(role, N bytes)                  -> n>0 | EAGAIN | EPIPE/ECONNRESET | errno
+	OpFill                      // write(role) in a loop until EAGAIN    -> n>0..EAGAIN | EAGAIN | errno
+	OpRead                      // read(role, buffer of N bytes)         -> exact count | errno
+	OpClose                     // close(role)                           -> ok | errno
+	OpSoError                   // getsockopt(role, SO_ERROR)            -> 0 | errno name
+	OpPeerWrite                 // the peer sends N bytes (all must be queued)
+	OpPeerDrainAll              // the peer reads until it has everything A ever wrote
+	OpPeerCloseWrite            // the peer sends FIN (shutdown(SHUT_WR))
+	OpPeerClose                 // the peer closes (FIN; RST when it has unread data)
+	OpPeerReset                 // the peer aborts (SO_LINGER 0 + close); TCP only
+	OpEventfdCreate             // eventfd2(0, EFD_NONBLOCK)
+	OpEventfdWrite              // write(E, 8-byte counter increment N)
+	OpEventfdRead               // read(E, 8 bytes)                      -> 8 | EAGAIN
+	OpUDPCreate                 // a bound, non-blocking UDP socket U and two remote senders
+	OpUDPSend                   // remote sender number From sends one datagram of N bytes to U
+	OpRecvfrom                  // recvfrom(U, buffer of N bytes)        -> "n from=S<k>" | EAGAIN
+	OpConnectRefused            // C: non-blocking connect to a port without listener -> EINPROGRESS (then refused)
+	OpConnectPending            // C: non-blocking connect that stays in SYN_SENT     -> EINPROGRESS
+	OpConnectAccepted           // C: non-blocking connect that then completes        -> EINPROGRESS
 )
 
 var opNames = map[Op]string{
@@ -135,9 +135,13 @@ func (s Step) String() string {
 }
 
 // Constructors (the vocabulary of the corpus).
-func EpollAdd(r Role, mask uint32) Step { return Step{Op: OpEpollAdd, Role: r, Mask: mask, Expect: "ok"} }
-func EpollMod(r Role, mask uint32) Step { return Step{Op: OpEpollMod, Role: r, Mask: mask, Expect: "ok"} }
-func EpollDel(r Role) Step              { return Step{Op: OpEpollDel, Role: r, Expect: "ok"} }
+func EpollAdd(r Role, mask uint32) Step {
+	return Step{Op: OpEpollAdd, Role: r, Mask: mask, Expect: "ok"}
+}
+func EpollMod(r Role, mask uint32) Step {
+	return Step{Op: OpEpollMod, Role: r, Mask: mask, Expect: "ok"}
+}
+func EpollDel(r Role) Step { return Step{Op: OpEpollDel, Role: r, Expect: "ok"} }
 
 // Wait is epoll_wait; want is the expected set, e.g. "A:IN|OUT E:IN", "-" for nothing.
 func Wait(want string) Step { return Step{Op: OpWait, Expect: want} }
